@@ -37,7 +37,7 @@ ASSUMPTIONS = [
     'compositions in [0,1], temperatures 300..3000 K, cache sensitivities 0..12 (0..15 thorough): |v*10^s| < 2^63, where the int64 key is exact; beyond that the cast collapses again (Lean: int64_residual_collision)',
     'conditional purity is proved under the hypothesis that the solver result does not depend on the supplied start; for the real pycalphad this is monitored at rtol 1e-6, not proved',
     'local_phase_sampling_conditions=None and computeSearchDir=False throughout; one precipitate phase per object (the shipped Al-Zr and Ni-Cr-Al objects)',
-    'values compared with rtol 1e-6 (absolute floor 1e-4 J/mol for driving forces, 1e-9 for mole fractions)',
+    'values compared with rtol 1e-6 (absolute floor 1e-4 J/mol for driving forces, 1e-9 for mole fractions, 1e-7 of the largest entry for the entries of a diffusivity matrix / vector)',
 ]
 TRUSTED = [
     'Python hash() of a tuple of ints is collision-free on the keys met in a run',
@@ -723,6 +723,10 @@ def vals_close(a, b, name):
     if len(fa) != len(fb):
         return False, (len(fa), len(fb))
     worst = None
+    # entries of a diffusivity matrix are compared relative to the size of the matrix (small off-diagonal entries are
+    # differences of large terms: their own relative error is the solver tolerance amplified by the cancellation)
+    finite = [abs(t) for t in fa + fb if not math.isnan(t) and not math.isinf(t)]
+    dscale = 0.1 * max(finite) if finite else 0.0
     for u, w in zip(fa, fb):
         if math.isnan(u) and math.isnan(w):
             continue
@@ -733,7 +737,7 @@ def vals_close(a, b, name):
         elif name in ('curv', 'growth'):
             ok = close(u, w, 10 * RTOL, 0.0) or (abs(u) <= 1.0 and abs(w) <= 1.0 and abs(u - w) <= 1e-8)
         else:
-            ok = close(u, w, RTOL, 0.0)
+            ok = close(u, w, RTOL, dscale)
         if not ok:
             worst = (u, w)
             break
